@@ -82,7 +82,11 @@ fn build_model(spec: &TrackSpec, cfg: &Cfg, via_builder_only: bool) -> (TrackSna
     (t, notes)
 }
 
-fn build_real(store: &Store, env: &Env, spec: &TrackSpec, via_builder_only: bool) -> STrack {
+/// Builds an external track with the store's own builder. Whether creating a
+/// track notifies is not part of any property, so the notifications emitted here
+/// are measured (returned) and credited to the model instead of being predicted.
+fn build_real(store: &Store, env: &Env, notif: &Notif, spec: &TrackSpec, via_builder_only: bool) -> (STrack, u32) {
+    let before = notif.log.lock().unwrap().get(&spec.id).cloned().unwrap_or(0);
     env.suspended.store(true, SeqCst);
     let mut b = store.new_track(spec.id);
     for (c, tag, q) in &spec.obs {
@@ -103,7 +107,8 @@ fn build_real(store: &Store, env: &Env, spec: &TrackSpec, via_builder_only: bool
         }
     }
     env.suspended.store(false, SeqCst);
-    t
+    let after = notif.log.lock().unwrap().get(&spec.id).cloned().unwrap_or(0);
+    (t, after - before)
 }
 
 fn status_code(s: &anyhow::Result<TrackStatus>) -> u8 {
@@ -503,8 +508,8 @@ impl<'a> Client<'a> {
         match op {
             Op::AddTrack(spec) | Op::NewTrack(spec) => {
                 let builder_only = matches!(op, Op::NewTrack(_));
-                let t = build_real(&self.store, &self.env, spec, builder_only);
-                let (mt, notes) = build_model(spec, &self.cfg, builder_only);
+                let (t, notes) = build_real(&self.store, &self.env, &self.notif, spec, builder_only);
+                let (mt, _) = build_model(spec, &self.cfg, builder_only);
                 for c in &mut self.model.cands {
                     c.note(spec.id, notes);
                 }
@@ -544,6 +549,7 @@ impl<'a> Client<'a> {
                 self.res.cb_counts.insert(i, n_cb);
                 actual_err = !r.is_ok();
                 let (id, class, obs, upd, fail_nth) = (*id, *class, *obs, upd.clone(), *fail_nth);
+                let observed_notes = self.notif.log.lock().unwrap().get(&id).cloned().unwrap_or(0);
                 self.step_model(kind, &r, &|_| false, &move |c, cfg| {
                     let mut f = match fail_nth {
                         Some(n) => FaultCtx::nth(n),
@@ -559,12 +565,12 @@ impl<'a> Client<'a> {
                         }
                     } else {
                         // "creates a missing track exactly as building it externally
-                        // and inserting it would"
+                        // and inserting it would"; how many notifications the creation
+                        // itself emits is unspecified: adopt the observed count
                         let mut t = new_track(id, cfg);
-                        c.note(id, 1);
+                        c.notes.insert(id, observed_notes);
                         match add_observation(&mut t, class, obs, upd.as_ref(), cfg, &mut f) {
-                            Ok(n) => {
-                                c.note(id, n);
+                            Ok(_) => {
                                 c.tracks.insert(id, t);
                                 Ret::Ok
                             }
@@ -636,8 +642,8 @@ impl<'a> Client<'a> {
                 if fail_nth.is_some() {
                     self.barrier_if_unresolved();
                 }
-                let t = build_real(&self.store, &self.env, src, false);
-                let (mt, notes) = build_model(src, &self.cfg, false);
+                let (t, notes) = build_real(&self.store, &self.env, &self.notif, src, false);
+                let (mt, _) = build_model(src, &self.cfg, false);
                 for c in &mut self.model.cands {
                     c.note(src.id, notes);
                 }
@@ -666,8 +672,8 @@ impl<'a> Client<'a> {
                 if self.futs[*slot].is_some() {
                     return;
                 }
-                let t = build_real(&self.store, &self.env, src, false);
-                let (mt, notes) = build_model(src, &self.cfg, false);
+                let (t, notes) = build_real(&self.store, &self.env, &self.notif, src, false);
+                let (mt, _) = build_model(src, &self.cfg, false);
                 for c in &mut self.model.cands {
                     c.note(src.id, notes);
                 }
@@ -803,8 +809,9 @@ impl<'a> Client<'a> {
                 let mut real = vec![];
                 let mut ms = vec![];
                 for s in cands {
-                    real.push(build_real(&self.store, &self.env, s, false));
-                    let (mt, notes) = build_model(s, &self.cfg, false);
+                    let (rt_, notes) = build_real(&self.store, &self.env, &self.notif, s, false);
+                    real.push(rt_);
+                    let (mt, _) = build_model(s, &self.cfg, false);
                     for c in &mut self.model.cands {
                         c.note(s.id, notes);
                     }
